@@ -54,8 +54,18 @@ func harnessOverlay(withCmd bool) (map[string][]byte, map[string]string, error) 
 		paths[v] = f
 	}
 	if withCmd {
+		// the sx prelude of the in-package cmd harnesses is the same file, with
+		// the package clause changed
+		if b, err := os.ReadFile("/verif/harness/sx_prelude.go"); err == nil {
+			v := filepath.Join(repoDir, "cmd", "zz_vh_sx_prelude.go")
+			ov[v] = []byte(strings.Replace(string(b), "package zzvh", "package cmd", 1))
+			paths[v] = "/verif/harness/sx_prelude.go"
+		}
 		files, _ := filepath.Glob("/verif/harness_cmd/*.go")
 		for _, f := range files {
+			if filepath.Base(f) == "sx_prelude.go" {
+				continue
+			}
 			b, err := os.ReadFile(f)
 			if err != nil {
 				return nil, nil, err
